@@ -133,6 +133,8 @@ func (p *P) Run(src *tape.Source, trace bool) *core.Result {
 		switch rep.Class {
 		case racelog.Library:
 			r.Fail("race-free", rep.Sig, "data race on library state:\n"+rep.Text)
+		case racelog.Callers:
+			r.Fail("held-value-untouched(race)", rep.Sig, "two callers race on the same memory: the library handed one object to two holders:\n"+rep.Text)
 		case racelog.Mixed:
 			r.Fail("held-value-untouched(race)", rep.Sig, "library code on another task accessed memory a holder can still read, without ordering:\n"+rep.Text)
 		default:
